@@ -29,6 +29,8 @@ RULE = ('position level: every ordered word of <= N fragments over the K contrib
         'different bases receive a vote or a fragment has disagreeing mates')
 ASSUMPTIONS = [
     'every fragment has an R1 (fragments without R1 are skipped by get_consensus; not generated)',
+    'a single-end fragment is Fragment([R1, None]) as the package iterators build it; the Fragment([R1]) form of the '
+    'class docstring is explored as a separate small family (call-site class single-read-list)',
     'bases are from ACGTN; all fragments of a molecule map to one contig and share the R1 strand',
     'N is not a base call: a fragment whose (higher-quality) call is N casts no vote',
     'dove_safe=True (docstring: only bases within the R1 / R2 start and end coordinates): a fragment votes only '
@@ -161,13 +163,14 @@ def window_alphabet(level, tier):
         return _single_letters() + _pair_letters(['m', '1f', '1l', '2f', '2l'], ['gt', 'lt', 'eq']) + [['x']]
     if level == 2:
         if tier == 'quick':
-            return _single_letters()[:15] + _pair_letters(['1f', '2l'], ['gt', 'eq'], _W3) + [['x']]
-        return _single_letters() + _pair_letters(['m', '1f', '2l'], ['gt', 'eq']) + [['x']]
+            return _single_letters() + _pair_letters(['1f', '2l'], ['gt', 'eq']) + [['x']]
+        return _single_letters() + _pair_letters(['m', '1f', '2l'], ['gt', 'lt', 'eq']) + [['x']]
     if level == 3:
         singles = [['s', 0, 2, None], ['s', 0, 2, 'first'], ['s', 1, 2, 'last'], ['s', 1, 1, 'first'], ['c', 'deletion']]
         if tier == 'quick':
-            return singles[:4] + _pair_letters(['1f'], ['gt', 'eq'], {((1, 2), (0, 1)), ((0, 2), (0, 2))})
-        return singles + _pair_letters(['1f', '2l'], ['gt', 'eq'], _W3) + [['x']]
+            return singles + _pair_letters(['1f', '2l'], ['gt', 'eq'], _W3) + [['x']]
+        return singles + [['s', 0, 0, None], ['s', 2, 2, 'first'], ['c', 'softclip']] + \
+            _pair_letters(['1f', '2l'], ['gt', 'lt', 'eq'], _W3) + [['x']]
     raise ValueError(level)
 
 
@@ -227,13 +230,13 @@ def oracle(frags, dove_safe):
 
 
 # ---- driving the real code ------------------------------------------------------------------------
-def real_consensus(frags, dove_safe):
+def real_consensus(frags, dove_safe, single_as_pair=True):
     """Build a fresh Molecule by adding the fragments in the given order; return {pos: base} or raise."""
     from singlecellmultiomics.molecule import Molecule
     from singlecellmultiomics.fragment import Fragment
     mol = Molecule()
     for i, fd in enumerate(frags):
-        reads = G.build_reads(REF, fd, f'f{i}', TAGS)
+        reads = G.build_reads(REF, fd, f'f{i}', TAGS, single_as_pair=single_as_pair)
         frag = Fragment(reads, assignment_radius=1000, umi_hamming_distance=0)
         if not mol.add_fragment(frag):
             raise HarnessError(f'fragment {i} was not accepted into the molecule: {fd}')
@@ -254,10 +257,10 @@ def _canon(d):
     return sorted((str(k), v) for k, v in d.items())
 
 
-def _run(frags, dove_safe, site):
+def _run(frags, dove_safe, site, single_as_pair=True):
     """-> (result dict | None, [(signature, detail)])"""
     try:
-        return real_consensus(frags, dove_safe), []
+        return real_consensus(frags, dove_safe, single_as_pair), []
     except HarnessError:
         raise
     except Exception as ex:
@@ -307,6 +310,10 @@ def _frags_of(case):
 def check_case(case, base_result=None):
     """All clauses for one case. -> (violations, info)"""
     site = 'get_consensus' + ('[dove_safe]' if case.get('dove_safe') else '') + ':' + case['level']
+    sap = not case.get('single_read_list')
+    if not sap:
+        # the one-element read list of the Fragment docstring, Fragment([read]); own call-site class
+        site += ':single-read-list'
     dove = bool(case.get('dove_safe'))
     frags = _frags_of(case)
     want, votes = oracle(frags, dove)
@@ -314,19 +321,19 @@ def check_case(case, base_result=None):
     execs = 0
     if case.get('double'):
         # the doubled molecule must give what the plain one gives (and what the vote says)
-        got, v = _run(_doubled(frags, case['double']), dove, site + ':doubled')
+        got, v = _run(_doubled(frags, case['double']), dove, site + ':doubled', sap)
         execs += 1
         viols += v
         if got is not None:
             if base_result is None:
-                base_result, v0 = _run(frags, dove, site)
+                base_result, v0 = _run(frags, dove, site, sap)
                 execs += 1
                 viols += v0
             if base_result is not None and got != base_result:
                 viols.append((f'{site}:doubling-changes-consensus', {'plain': _canon(base_result), 'doubled': _canon(got)}))
             viols += _compare(got, want, {p: {b: 2 * n for b, n in v_.items()} for p, v_ in votes.items()}, site + ':doubled')
     else:
-        got, v = _run(frags, dove, site)
+        got, v = _run(frags, dove, site, sap)
         execs += 1
         viols += v
         if got is not None:
@@ -384,6 +391,7 @@ N_WIN_SHARDS = 16
 
 def shards(tier):
     out = [('pos', i) for i in range(N_POS_SHARDS)]
+    out.append(('list1',))
     for level in (1, 2, 3):
         for i in range(N_WIN_SHARDS):
             out.append(('win', level, i))
@@ -399,6 +407,14 @@ def _distinct_permutations(ms):
 
 
 def run_shard(shard, tier, acc):
+    if shard[0] == 'list1':
+        # single-end fragments given as Fragment([read]) (class docstring) instead of [read, None]
+        for n in (1, 2, 3):
+            for word in itertools.product(range(4), repeat=n):
+                case = {'level': 'pos', 'word': list(word), 'single_read_list': True}
+                viols, info = check_case(case)
+                _report(acc, case, viols, info)
+        return
     if shard[0] == 'pos':
         # heavy multisets first in the list would unbalance: deal round-robin
         mss = _pos_multisets(tier)
@@ -471,6 +487,6 @@ def replay(case):
         else:
             other = dict(case, letters=case['letters'][::-1])
         if other != case:
-            base, _ = _run(_frags_of(other), bool(case.get('dove_safe')), 'x')
+            base, _ = _run(_frags_of(other), bool(case.get('dove_safe')), 'x', not case.get('single_read_list'))
     viols, _ = check_case(case, base_result=base)
     return viols
